@@ -79,6 +79,15 @@ def main():
     took = time.time() - t
     check('child never listens: launch timeout raises after ~5 s', 'timeout' in r and 4 < took < 12, (r, round(took, 1)))
 
+    big = remote.Environment()
+    r = big.eval('return "x" * 5000000')
+    check('5 MB reply crosses the real connection intact', isinstance(r, str) and len(r) == 5000000)
+    big.configure({'sources': ['.']})
+    src = 'zq = 1\n' + '# ' + 'p' * (3 * 2 ** 20) + '\nzq.\n'
+    r = big.assist(src, (3, 3), 'big.py')
+    check('3 MiB request crosses the real connection intact', isinstance(r, list) and 'real' in r[1], str(r)[:80])
+    big.close()
+
     env = remote.Environment()
     env.configure({'sources': ['.']})
     for name, call, expect in [
